@@ -1,5 +1,5 @@
 # configuration of ./check for property C09 (see props_config.py)
-CONFIG = {'gen': [],
+CONFIG = {'gen': ['ConstsC09'],
  'rule': "cases = (1) names: fixed grid (root, '.', empty labels, 63/64-byte labels, wire length 254..258) + random valid label lists over "
          'arbitrary bytes with lengths up to 63/255 + odd strings; (2) Encode->DecodeMessage round trips of structured messages (all '
          'header words biased to boundaries, 0..N entries in each of the four sections incl. a 3^4 section-size grid, RDATA 0..65535 and '
@@ -19,7 +19,12 @@ CONFIG = {'gen': [],
              'depends on it'],
  'technique': 'Lean 4 proof: functional induction over the well-founded decoder and the RFC 1035 reader, list induction over sections; '
               'hand model tied to the Go code by differential correspondence; RFC 1035 spec (serializer with all admissible pointer '
-              'placements + reader) cross-checked against miekg/dns and an independent Go serializer on every run',
+              'placements + reader) cross-checked against miekg/dns and an independent Go serializer on every run; constants regenerated '
+              'from the source on every run by a go/ast fact extractor (Gen/ConstsC09: '
+              'MaxLabelLength/MaxDomainLength/HeaderSize/labelPointer and each of their uses, the 0x3FFF pointer mask with its 16-bit '
+              'big-endian read, the question and record fixed sizes 4 and 10 with their running offsets, the six header offsets, field '
+              'widths, byte order and write order of the encoders) and proved equal to the ones the model uses by rfl/decide (14 theorems '
+              'consts_match_model_*)',
  'level_text': 'Proved in Lean for all inputs about a hand-written model of '
                'EncodeDomainName/DecodeDomainName/Message.Encode/DecodeMessage: the encoder emits exactly the uncompressed RFC 1035 '
                'message (encode_eq_spec, encodeName_spec) and nothing else (encodeName_sound); decoding agrees with an independent RFC '
@@ -30,7 +35,12 @@ CONFIG = {'gen': [],
                '(pointer_must_go_back, pointer_must_go_back_name), termination is the well-founded definition of the decoder, no input '
                'panics (decode_never_panics), and the allocation of a name is bounded explicitly (name_alloc_bound). The model is tied to '
                'the code by running both on the same generated inputs on every run, and the implementation is compared with the Lean RFC '
-               '1035 codec and miekg/dns.',
- 'level_note': 'Trusted: Lean kernel; axioms propext, Classical.choice, Quot.sound; the hand model is tied to the Go code only by '
-               'differential testing (bounded); Go stdlib semantics as modelled. The theorems are about the repaired code (three fix '
+               '1035 codec and miekg/dns. Constants tie: 14 theorems consts_match_model_* restate the model functions with the numbers '
+               'regenerated from the current source (MaxLabelLength/MaxDomainLength/HeaderSize/labelPointer and each of their uses, the '
+               '0x3FFF pointer mask with its 16-bit big-endian read, the question and record fixed sizes 4 and 10 with their running '
+               'offsets, the six header offsets, field widths, byte order and write order of the encoders) in place of their literals; a '
+               'changed constant in the source makes the theorem named after the function fail.',
+ 'level_note': 'Trusted: Lean kernel; axioms propext, Classical.choice, Quot.sound; the hand model is tied to the Go code by differential '
+               'testing and, for the constants covered by consts_match_model_*, by regeneration from the source (control flow: '
+               'differential testing only, bounded); Go stdlib semantics as modelled. The theorems are about the repaired code (three fix '
                'patches in fixes/C09-*).'}
